@@ -35,6 +35,7 @@ class Interrupter:
         self.frame_line = None
         self.frame_func = None
         self.frame_stack = []
+        self.frame_positions = []
         self.deferred = 0
         self._last_line = {}
 
@@ -53,12 +54,15 @@ class Interrupter:
                               frame.f_lineno)
                 self.frame_func = frame.f_code.co_name
                 self.frame_stack = []
+                self.frame_positions = []
                 f = frame
                 while f is not None and len(self.frame_stack) < 40:
                     # frames of the code under test only (the harness and
                     # multiprocessing have their own __init__ frames)
                     if f.f_code.co_filename.startswith(self.prefix):
                         self.frame_stack.append(f.f_code.co_name)
+                        self.frame_positions.append(
+                            (f.f_code.co_filename, f.f_lineno))
                     f = f.f_back
                 import linecache
                 self.frame_line = linecache.getline(
@@ -90,3 +94,44 @@ class LineCounter(Interrupter):
 
     def __init__(self, repo):
         super().__init__(repo, at=-1)
+
+
+_AST_CACHE = {}
+
+
+def in_unprotectable_position(filename, lineno):
+    """
+    True when ``lineno`` of ``filename`` is a place where no Python program
+    can protect a resource against an asynchronous exception: the header of a
+    ``with`` statement, the ``try:`` line itself (the statement before it has
+    acquired the resource, the handler is not armed yet), or any line of a
+    ``finally:`` / ``except`` clause (the cleanup code is what gets cut).
+    """
+    import ast
+    if filename not in _AST_CACHE:
+        try:
+            with open(filename, encoding="utf-8") as fh:
+                _AST_CACHE[filename] = ast.parse(fh.read())
+        except Exception:  # noqa - unknown source: be conservative
+            _AST_CACHE[filename] = None
+    tree = _AST_CACHE[filename]
+    if tree is None:
+        return True
+
+    def spans(stmts):
+        return any(st.lineno <= lineno <= getattr(st, "end_lineno", st.lineno)
+                   for st in stmts)
+
+    for node in ast.walk(tree):
+        if isinstance(node, (ast.With, ast.AsyncWith)):
+            if node.lineno <= lineno < node.body[0].lineno:
+                return True
+        elif isinstance(node, ast.Try):
+            if node.lineno == lineno:
+                return True
+            if spans(node.finalbody):
+                return True
+            for h in node.handlers:
+                if h.lineno <= lineno <= getattr(h, "end_lineno", h.lineno):
+                    return True
+    return False
